@@ -87,7 +87,7 @@ DEFAULTS = dict(
     threads=[1], born=[1], K=8, QCap=10, SCap=10, cancelable=False, enabled=True, ready=True,
     menu=[], prog=None, smp=[True], cross=True, trackcut=False,
     MaxOps=4, MaxSpans=3, MaxRoots=1, MaxTraces=1, MaxScopes=2, MaxLocal=2, MaxAtt=2, MaxLs=1,
-    MaxCycles=2, MaxFlush=0, MaxFuts=1, MaxPolls=3, adapters=["fut"], inner=["none", "ls", "ev", "ctx"],
+    MaxCycles=2, MaxFlush=0, MaxFuts=1, MaxPolls=3, adapters=["fut"], inner=["none", "ls", "ev", "ctx"], distinct_ops=False,
 )
 
 
@@ -123,7 +123,7 @@ MCInner == {tla_val(set(c['inner']))}
            "  SmpChoices <- MCSmp", "  Check <- MCCheck", "  None = None",
            f"  K = {c['K']}", f"  QCap = {c['QCap']}", f"  SCap = {c['SCap']}",
            f"  Cancelable = {tla_val(c['cancelable'])}", f"  Enabled = {tla_val(c['enabled'])}", f"  Ready = {tla_val(c['ready'])}",
-           f"  CrossThread = {tla_val(c['cross'])}", f"  TrackCut = {tla_val(c['trackcut'])}"]
+           f"  CrossThread = {tla_val(c['cross'])}", f"  TrackCut = {tla_val(c['trackcut'])}", f"  DistinctOps = {tla_val(c['distinct_ops'])}"]
     cfg += ["  AdapterKinds <- MCAdapters", "  InnerKinds <- MCInner"]
     for k in ["MaxOps", "MaxSpans", "MaxRoots", "MaxTraces", "MaxScopes", "MaxLocal", "MaxAtt", "MaxLs", "MaxCycles", "MaxFlush", "MaxFuts", "MaxPolls"]:
         cfg.append(f"  {k} = {c[k]}")
@@ -374,6 +374,28 @@ def replay(behaviours, c, tag, seed):
         if stats["restarts"] > 50:
             raise ToolError("harness keeps hanging")
     return trace, stats
+
+
+def stress(behaviours, c, tag, seed, threads=4, rounds=200, interval_us=150):
+    """Free-running executions: one-thread programs on several real threads against the real background
+    collector (harness `stress`). Returns the trace path."""
+    d = os.path.join(OUT, "replay", tag)
+    shutil.rmtree(d, ignore_errors=True)
+    os.makedirs(d)
+    inp = os.path.join(d, "programs.jsonl")
+    with open(inp, "w") as f:
+        for i, b in enumerate(behaviours):
+            f.write(json.dumps(dict(id=i, steps=b["steps"])) + "\n")
+    outp = os.path.join(d, "trace.ndjson")
+    cmd = [HBIN, "stress", "--in", inp, "--out", outp, "--seed", str(seed), "--threads", str(threads), "--rounds", str(rounds),
+           "--interval-us", str(interval_us)] + [x for x in harness_opts(c) if x not in ("--churn",)]
+    try:
+        r = subprocess.run(cmd, stdout=subprocess.PIPE, stderr=subprocess.PIPE, text=True, timeout=1800)
+    except subprocess.TimeoutExpired:
+        raise ToolError("stress harness timed out")
+    if r.returncode != 0:
+        raise ToolError("stress harness failed (%d): %s" % (r.returncode, r.stderr[-2000:]))
+    return outp
 
 
 def split_trace(trace, parts, d):
